@@ -400,6 +400,16 @@ def evaluate(prop, res):
                 # C12: "all getters observe exactly that state" – a getter that tells a value from new_with_raw_value(raw_value())
                 # observes something other than the last-write-wins register
                 add("violation", "value and its re-wrapped copy differ through a getter", {"line": fl, "declaration": name})
+            elif tag == "READBACK-DIFF":
+                # "READBACK-DIFF <decl> hist <raw> <n> <steps…> :: <field> <idx> wrote <v> read <got>": after a history of writes the
+                # field written last does not read back what was written (read-back for every reachable receiver: C02 / C03 /
+                # C04 / C05 / C08 by the kind of the field; C12: the getters observe the last-write-wins state)
+                fname = fl.split(" :: ", 1)[1].split(" ")[0] if " :: " in fl else ""
+                d0 = table.get(name)
+                fdef = next((x for x in d0["fields"] if x["name"] == fname), None) if d0 else None
+                ps = (field_props(d0, fdef, "write") | {"C12"}) if fdef else {"C12"}
+                if prop in ps and prop != "C16":
+                    add("violation", "after a history of writes the field written last does not read back the written value", {"line": fl, "declaration": name})
             elif tag == "HIDDEN-STATE" and prop == "C11":
                 add("violation", "an operation created state above bit N-1 of the storage", {"line": fl, "declaration": name})
             elif tag in ("HIST-PANIC", "RUN-PANIC") and prop in ("C12", "C16"):
